@@ -99,7 +99,7 @@ Proof.
   intros Hwf HW Hfuse Hr.
   set (idx' := match k with TPop => 0 | _ => idx end) in *.
   assert (Hpop : k = TPop -> idx' = 0) by (intros ->; reflexivity).
-  pose proof (exec_take c w st Erased vid k idx' KDrop r0 Hwf HW Hfuse Hpop I Hr) as Hm.
+  pose proof (exec_take c w st Erased vid k idx' KDrop r0 Hwf HW Hfuse Hpop (fun d Hin => match Hin with end) Hr) as Hm.
   assert (Eopen : temp_open c vid k idx = temp_open c vid k idx').
   { unfold idx', temp_open. destruct k; reflexivity. }
   unfold take_prog in Hm. cbn [exec]. rewrite Eopen.
@@ -365,6 +365,15 @@ Proof.
   | context [if ?x then _ else _] => destruct x eqn:?
   end; cbn [ok_res panic_res s_out]; discriminate.
 Qed.
+Lemma sp_sink_out c : forall sk st nx v a k i r, sp_sink c st nx v a k i sk = Some r -> s_out r <> 1.
+Proof.
+  induction sk as [| |d|d j| |sk' IH|n0 d0 sk' IH|n0 sk' IH|]; intros st nx v a k i r H; cbn [sp_sink] in H;
+    try (exact (sp_take_elem_out _ _ _ _ _ _ _ _ _ H)).
+  - cbv zeta in H. destruct (sp_sink c _ (nx + 1) v _ k i sk') as [r'|] eqn:E; [|discriminate].
+    apply IH in E. injection H as <-. exact E.
+  - cbv zeta in H. destruct (sp_sink c st (nx + n0) v a k i sk') as [r'|] eqn:E; [|discriminate].
+    apply IH in E. injection H as <-. exact E.
+Qed.
 Lemma sp_take_none c st nx v k idx sk r :
   sp_take c st nx v k idx sk = Some r -> s_out r = 1 -> r = none_res st nx.
 Proof.
@@ -372,14 +381,14 @@ Proof.
   destruct (get_a v st) as [a|]; [|discriminate].
   destruct k.
   - destruct (length (a_xs a) =? 0)%nat.
-    + destruct sk; try discriminate; injection H as <-; reflexivity.
-    + exfalso. exact (sp_take_elem_out _ _ _ _ _ _ _ _ _ H Ho).
+    + injection H as <-; reflexivity.
+    + exfalso. exact (sp_sink_out _ _ _ _ _ _ _ _ _ H Ho).
   - destruct (idx <? N.of_nat (length (a_xs a))).
-    + exfalso. exact (sp_take_elem_out _ _ _ _ _ _ _ _ _ H Ho).
-    + destruct sk; try discriminate; injection H as <-; cbn [panic_res s_out] in Ho; discriminate.
+    + exfalso. exact (sp_sink_out _ _ _ _ _ _ _ _ _ H Ho).
+    + injection H as <-; cbn [panic_res s_out] in Ho; discriminate.
   - destruct (idx <? N.of_nat (length (a_xs a))).
-    + exfalso. exact (sp_take_elem_out _ _ _ _ _ _ _ _ _ H Ho).
-    + destruct sk; try discriminate; injection H as <-; cbn [panic_res s_out] in Ho; discriminate.
+    + exfalso. exact (sp_sink_out _ _ _ _ _ _ _ _ _ H Ho).
+    + injection H as <-; cbn [panic_res s_out] in Ho; discriminate.
 Qed.
 
 Lemma exec_offer_temp c w st v idx src k sidx r :
@@ -393,7 +402,8 @@ Proof.
   set (sk := match idx with None => KPush v | Some i => KIns v i end) in *.
   destruct (sp_take c st (unext (wuw w)) src k sidx' sk) as [r0|] eqn:E0; [|discriminate]. injection Hr as <-.
   assert (Hpop : k = TPop -> sidx' = 0) by (intros ->; reflexivity).
-  assert (Hadm' : match sk with KPush d | KIns d _ => adm_vec c w d | _ => True end) by (unfold sk; destruct idx; exact Hadm).
+  assert (Hadm' : forall d, In d (sink_dsts sk) -> adm_vec c w d).
+  { unfold sk. destruct idx; cbn [sink_dsts]; intros d [<-|[]]; exact Hadm. }
   pose proof (exec_take c w st Erased src k sidx' sk r0 Hwf HW Hfuse Hpop Hadm' E0) as Hm.
   assert (Eopen : temp_open c src k sidx = temp_open c src k sidx').
   { unfold sidx', temp_open. destruct k; reflexivity. }
